@@ -32,17 +32,20 @@ func (w *W) observe(regKey string, h *hll.HyperLogLog, md *model, variant, after
 	var bs [][]byte
 	var bsAt []int
 	var cs []uint64
+	take := func(k int) { // copied (into reused buffers): what was returned at this moment
+		w.bufs[len(bs)] = append(w.bufs[len(bs)][:0], h.GetBytes()...)
+		bs = append(bs, w.bufs[len(bs)])
+		bsAt = append(bsAt, k)
+	}
 	for k, ch := range order {
 		if ch == 'B' {
-			bs = append(bs, append([]byte(nil), h.GetBytes()...)) // copied: what was returned at this moment
-			bsAt = append(bsAt, k)
+			take(k)
 		} else {
 			cs = append(cs, h.Cardinality())
 		}
 	}
 	if len(bs) == 0 { // the estimate alone was asked for; the state is read afterwards
-		bs = append(bs, append([]byte(nil), h.GetBytes()...))
-		bsAt = append(bsAt, len(order))
+		take(len(order))
 	}
 	c.Count("observations", 1)
 	c.SetAdd("observation_call_orders", order)
@@ -81,7 +84,7 @@ func (w *W) observe(regKey string, h *hll.HyperLogLog, md *model, variant, after
 	})
 	c.Count("cardinality_evaluations_interleaved", 1)
 	w.crossCheck(h, cs[0], bs[0], after, det)
-	return cs[0], bs[0]
+	return cs[0], bs[0] // bs[0] is valid until the next observation
 }
 
 type hslot struct {
